@@ -311,6 +311,7 @@ def prop_C04(run):
     rules_rng.data_width(run)
     rules_rng.typenames(run)
     rules_rng.size_writers(run)
+    rules_rng.constrained_value_tested(run)    # a failed range check fails the candidate even if the production ignores the parameter (F77)
     run.rules_run += ["RNG decision tables of the uN/sN/iN predicates over the atoms sign, min_size<=>N, N==0 (abstractly interpreted from MIR) against the statement's formula",
                       "RNG data directive predicate, no truncation before the test, constrained size, typename tables"]
 
@@ -375,6 +376,7 @@ def prop_C01(run):
     rules_mpt.build_output_rules(run)
     # R4: out-of-range arguments are rejected (tables of C04) and never bound unchecked
     rules_rng.range_tables(run)
+    rules_rng.constrained_value_tested(run)
     reach = reach_roots(run)
     rules_err.err5(run, reach)
     run.rules_run += ["REJ no-match / tie / undefined symbol are errors on every path", "OVL overlapping output is rejected (neighbour comparisons)", "SYM lookup scope: too many dots find nothing", "PIPE phases in order behind their success edges", "MPT emission sites", "RNG range predicates", "ERR5 no rejection swallowed"]
